@@ -650,6 +650,117 @@ def bidi_run_semantics(prog, rep):
     rep.extra["bidi_state_shapes"] = [sh.describe() for sh in shapes]
 
 
+RAW_UD = "ucd_parse::unicode_data::UnicodeData"
+
+
+def pairing_semantics(prog, rep):
+    """(iv) ucd_parsers::UnicodeData::parse: for every ascending sequence of plain / <.., First> / <.., Last>
+    lines, a plain line yields Single(c), a First line yields nothing and opens a range, the Last line that
+    follows yields Range(first, last); a Last without First, and anything but a Last after a First, is an
+    error. Induction over the loop's state shapes (one ghost: the open range's start, if any)."""
+    from .. import accum as ac
+    from .. import linform as lf
+
+    key = "precis_tools::ucd_parsers::UnicodeData::parse"
+    rule = "first-last-pairing"
+    b = prog.body(key)
+    if b is None:
+        rep.ob(rule, key, False, "function not found", key="%s|anchor" % rule)
+        return
+    rep.fn(key)
+
+    class PairWorld(ac.AccWorld):
+        def call(self, m, st, callee, args, term):
+            p = callee["path"]
+            if p in ("ucd_parse::parse", "ucd_parse::common::parse"):
+                return ip.ok(ip.Opq("vec", ("input",)))
+            if p == "std::path::Path::to_str":
+                return ip.some(ip.Str(("path",)))  # error messages only; a non-UTF-8 directory name is out of scope
+            if callee["name"] in ("is_range_start", "is_range_end") and args:
+                from ..models import deref_all
+
+                v = deref_all(m, st, args[0])
+                if isinstance(v, ip.Adt) and v.ty == RAW_UD:
+                    kind = v.fields[-1].data[0]
+                    return ip.boolean(kind == ("first" if callee["name"] == "is_range_start" else "last"))
+            return ac.AccWorld.call(self, m, st, callee, args, term)
+
+        def make_element(self, st, letter):
+            c = lf.from_lf({"N": 1, "G": 1}, 0)
+            fields = [ac.cp(c)] + [ip.Opq("raw-field", (i,)) for i in range(1, 15)] + [ip.Opq("kind", (letter[0],))]
+            return ip.Adt(RAW_UD, 0, tuple(fields))
+
+    world = PairWorld(prog)
+    bad = []
+
+    def emitted(o):
+        return [(e[2], e[3]) for e in o.state.events if e[0] == "emit"]
+
+    def is_err(o):
+        v = o.value
+        return isinstance(v, ip.Adt) and v.ty == ip.RESULT and v.variant == 1
+
+    def expect(sh, o, returned):
+        kind = world.cur_letter[0]
+        open_ = sh.st.ext.get("v:OPEN")
+        is_open = isinstance(open_, ip.I) and open_.v == 1
+        start = lf.to_lf(sh.st.ext["v:U"])
+        c = ({"N": 1, "G": 1}, 0)
+        em = emitted(o)
+        where = "%s line %s" % (kind, "while the range starting at %s is open" % lf.fmt(start) if is_open else "with no range open")
+        must_fail = (is_open and kind != "last") or (not is_open and kind == "last")
+        if must_fail:
+            if not (returned and is_err(o)):
+                bad.append("%s: accepted (must be an error)" % where)
+            return None
+        if returned:
+            bad.append("%s: the parser stops (%s)" % (where, "error" if is_err(o) else "early return"))
+            return None
+        want = [] if kind == "first" else [(c, c)] if kind == "plain" else [(start, c)]
+
+        def pred(f):
+            got = [(lf.to_lf(x), lf.to_lf(y)) for x, y in em]
+            if len(got) != len(want):
+                return "%s: yields %d entr%s, expected %d" % (where, len(got), "y" if len(got) == 1 else "ies", len(want))
+            for (gl, gh), (wl, wh) in zip(got, want):
+                if not lf.ask(f, "Eq", lf.add(gl, wl, -1)) or not lf.ask(f, "Eq", lf.add(gh, wh, -1)):
+                    return "%s: yields %s..=%s, expected %s..=%s" % (where, lf.fmt(lf.simplify(f, gl)), lf.fmt(lf.simplify(f, gh)), lf.fmt(lf.simplify(f, wl)), lf.fmt(lf.simplify(f, wh)))
+            return None
+
+        r = lf.forall(o.state.facts, pred)
+        if r is not None:
+            bad.append(r)
+            return None
+        if kind == "first":
+            return [(dict(o.state.facts), {"v:U": c, "v:OPEN": ip.I(1, "u32")})]
+        return [(dict(o.state.facts), {"v:U": ({}, 0), "v:OPEN": ip.I(0, "u32")})]
+
+    def on_step(sh, o):
+        return expect(sh, o, False)
+
+    def on_return(sh, o):
+        expect(sh, o, True)
+
+    def on_end(sh, o):
+        pass  # a file that ends inside a First/Last pair is not well-formed: outside the quantifier
+
+    def init_state():
+        st0 = ip.State()
+        st0.ext["v:OPEN"] = ip.I(0, "u32")
+        return st0
+
+    try:
+        shapes, n_paths, errors = ac.explore_loop(prog, world, key, [ip.Ref(("val", ip.Opq("path", ())))], on_step, on_end, letters_for=lambda sh: [("plain", None), ("first", None), ("last", None)], init_state=init_state, on_return=on_return)
+    except ip.AnalysisError as e:
+        rep.analysis_error(rule, key, e, b.where())
+        return
+    if errors and not bad:
+        rep.analysis_error(rule, key, ip.AnalysisError(errors[0]), b.where())
+        return
+    rep.ob(rule, "plain ↦ Single, First+Last ↦ Range(first, last), every other arrangement is an error (%d state shapes, %d paths)" % (len(shapes), n_paths), not bad, "; ".join(sorted(set(bad))[:3]), b.where(), key="%s|step" % rule, sample=True)
+    rep.extra["pairing_state_shapes"] = [sh.describe() for sh in shapes]
+
+
 def run(tier):
     rep = Report("C15", tier, __doc__)
     prog = Program()
@@ -668,6 +779,7 @@ def run(tier):
     gap_semantics(prog, rep)
     merge_semantics(prog, rep)
     bidi_run_semantics(prog, rep)
+    pairing_semantics(prog, rep)
     rep.not_decided += [
         "values computed by run compression / gap tracking for arbitrary (unbounded) entry sequences",
         "ucd-parse's own line grammar",
